@@ -1,7 +1,9 @@
 package world
 
 import (
+	"encoding/hex"
 	"fmt"
+	"sort"
 	"os"
 
 	"github.com/tikv/client-go/v2/testutils"
@@ -45,7 +47,15 @@ func (w *World) newEngine(kind string) (storage.KvStorage, bool, error) {
 		if err != nil {
 			return nil, false, err
 		}
-		testutils.BootstrapWithMultiRegions(cluster)
+		var splits [][]byte
+		if w.Sc != nil && w.Sc.Extra["tikv_regions"] != 0 {
+			for _, p := range w.Sc.Parts {
+				b, _ := hex.DecodeString(p)
+				splits = append(splits, b)
+			}
+			sort.Slice(splits, func(i, j int) bool { return string(splits[i]) < string(splits[j]) })
+		}
+		testutils.BootstrapWithMultiRegions(cluster, splits...)
 		store, err := tikv.NewTestTiKVStore(rpcClient, pdClient, nil, nil, 0)
 		if err != nil {
 			return nil, false, err
